@@ -132,8 +132,9 @@ def BuildGraph.selMatchesAtOld (g : BuildGraph) (s : Selector) (i : Nat) : Bool 
 inductive SelRes where
   /-- nodes with `IsSelected` set, number of loop iterations + calls spent -/
   | ok (selected : List Nat) (cost : Nat)
-  /-- "could not select node … because it depends on …, which does not match the platform" -/
-  | platformError (culprit : Nat)
+  /-- "could not select node … because it depends on …, which does not match the platform"; the steps spent
+      until the error -/
+  | platformError (culprit : Nat) (cost : Nat)
   | fuel
 deriving DecidableEq, Repr
 
@@ -151,7 +152,7 @@ def selectLoop (es : List Edge) (ok : Nat → Bool) : List Nat → List Nat → 
       -- dependencies of `r` are `inEdges[r]`: successors in the flipped graph
       match dfs (flipEdges es) ok es.length (succs (flipEdges es) r) (r :: vis) with
       | .done vis' steps => selectLoop es ok rs vis' (cost + 1 + steps)
-      | .bad c _ => .platformError c
+      | .bad c steps => .platformError c (cost + 1 + steps)
       | .fuel => .fuel
 
 /-- the nodes the first loop of `SelectTargetsForBuild` starts from, given the iteration order of
